@@ -62,6 +62,13 @@ def scenarios(tier):
     S = []
     pre_sets = [[]] + [[p] for p in PRE] + [[PRE[0], PRE[1]], [PRE[0], PRE[2]], [PRE[1], PRE[4]], [PRE[0], PRE[1], PRE[2]],
                                            [PRE[0], PRE[3], PRE[4]]]
+    if tier == "thorough":
+        pre_sets = []
+        for mask in range(1 << len(PRE)):
+            sub = [PRE[i] for i in range(len(PRE)) if mask >> i & 1]
+            if PRE[2] in sub and PRE[3] in sub:
+                continue  # two -q options: the last one wins, nothing to learn
+            pre_sets.append(sub)
     for pre in pre_sets:
         for ai in range(len(ADSETS)):
             for times in (1, 2, 3):
